@@ -593,6 +593,14 @@ def r9(ctx, rep):
     rep.check(conds["reserved-names-rejected"], "reserved-names-rejected", f"declarations named like the resolver's own scopes (`this`, `that`, `_param`, `_self`, `_infer`, `_infer_module`) must be rejected "
               f"in fold_statements (found a rejection for {sorted(reserved)}): `let _infer = 1` otherwise makes later lookups panic", file=st["file"], line=st["l"], fn=st["path"])
     import guards as _g
+    # constant folding indexes the arguments of an operator call by position: only calls of the operator's own arity are folded
+    se = syn.fn("static_eval::static_eval_rq_operator", crate="prqlc")
+    first_match = next((i for i, x in enumerate(se["body"]["s"]) if x.get("k") == "match" or (x.get("k") == "local" and (x.get("init") or {}).get("k") == "match" and "name" in show(x["init"]["e"]))), None)
+    arity_gate = any(x.get("k") == "if" and x.get("e") is None and _g._diverges(x["t"]) and re.search(r"args\.len\(\) (!=|<|>)", show(x["c"], maxdepth=8))
+                     for x in se["body"]["s"])
+    conds["static-eval-arity"] = arity_gate
+    rep.check(arity_gate, "static-eval-arity", "static_eval_rq_operator must return the call unfolded when the number of arguments is not the operator's arity (a function written with `internal` "
+              "can be declared with any number of parameters): `let f = -> internal std.neg` indexed a missing argument", file=se["file"], line=se["l"], fn=se["path"])
     n_present = 0
     for row in table:
         if row.get("unreachable_if") and conds.get(row["unreachable_if"]):
